@@ -135,6 +135,7 @@ type c06Scenario struct {
 	ocspA     []faultAnswer
 	crlA      []faultAnswer
 	badURLs   bool   // certificate 0 names non-http / unparsable URLs before its http ones
+	badLast   bool   // with badURLs: the LAST responder / point of certificate 0 is the unusable one (or the only one)
 	cache     string // "", "discard", "strict"
 	precancel bool
 	once      sync.Once
@@ -145,8 +146,11 @@ type c06Scenario struct {
 var c06BadOCSP = []string{"http://[::1", "%zz", "https://ocsp.test/c0/rX", "ldap://ocsp.test/c0/rX", "ftp://ocsp.test/c0/rX", "", "ocsp.test/no-scheme", "HTTPS://OCSP.TEST/c0/rX"}
 var c06BadCRL = []string{"http://[::1", "%zz", "https://crl.test/c0/dpX/base", "ldap://crl.test/c0/dpX/base", "ftp://crl.test/c0/dpX/base", "crl.test/no-scheme", "file:///etc/passwd", "HTTP://crl.test/c0/dpX/base"}
 
-func c06Bad(list []string, variant int) string {
-	return strings.ReplaceAll(list[variant%len(list)], "X", fmt.Sprint(urlLabel[0]))
+func c06Bad(list []string, variant int) string { return c06BadAt(list, variant, 0) }
+
+// c06BadAt: the string that replaces the URL at position pos (it reuses that URL's path).
+func c06BadAt(list []string, variant, pos int) string {
+	return strings.ReplaceAll(list[variant%len(list)], "X", fmt.Sprint(urlLabel[pos]))
 }
 
 func (s *c06Scenario) world(variant int) *revWorld {
@@ -156,13 +160,19 @@ func (s *c06Scenario) world(variant int) *revWorld {
 	}
 	// first URL of certificate 0 replaced by a non-http string (variant selects which)
 	return newRevWorldURLs(s.n, s.o, s.c, purposeCS, func(kind string, ci, j int) (string, bool) {
-		if ci != 0 || j != 0 {
+		pos := 0
+		if s.badLast && kind == "ocsp" {
+			pos = s.o[0] - 1
+		} else if s.badLast {
+			pos = s.c[0] - 1
+		}
+		if ci != 0 || j != pos {
 			return "", false
 		}
 		if kind == "ocsp" {
-			return c06Bad(c06BadOCSP, variant), true
+			return c06BadAt(c06BadOCSP, variant, pos), true
 		}
-		return c06Bad(c06BadCRL, variant), true
+		return c06BadAt(c06BadCRL, variant, pos), true
 	})
 }
 
@@ -205,6 +215,12 @@ func c06Scenarios(tier mc.Tier) []mc.Scenario {
 	add(&c06Scenario{name: "one-cert-o0c1-heavy-bodies", n: 2, o: []int{0}, c: []int{1}, entry: "validatecontext", lazy: true, bound: -1, ocspA: fullO, crlA: filterAnswers(c06CRL, func(a faultAnswer) bool { return a.heavy || a.name == "clean" })})
 	// non-http and unparsable URL strings in front of usable ones
 	add(&c06Scenario{name: "one-cert-o2c2-bad-first-urls", n: 2, o: []int{2}, c: []int{2}, entry: "validatecontext", lazy: true, bound: 1, ocspA: redO, crlA: redC, badURLs: true})
+	// ... and as the last or only source of their kind (the verdict is taken from what was tried last)
+	add(&c06Scenario{name: "one-cert-o2c2-bad-last-urls", n: 2, o: []int{2}, c: []int{2}, entry: "validatecontext", lazy: true, bound: 1, ocspA: redO, crlA: redC, badURLs: true, badLast: true})
+	add(&c06Scenario{name: "one-cert-o1c1-bad-only-urls", n: 2, o: []int{1}, c: []int{1}, entry: "validatecontext", lazy: true, bound: 1, ocspA: redO, crlA: redC, badURLs: true, badLast: true})
+	add(&c06Scenario{name: "one-cert-o1c0-bad-only-responder", n: 2, o: []int{1}, c: []int{0}, entry: "validatecontext", lazy: true, bound: 1, ocspA: redO, crlA: redC, badURLs: true, badLast: true})
+	add(&c06Scenario{name: "one-cert-o2c0-bad-last-url-CheckStatus", n: 2, o: []int{2}, c: []int{0}, entry: "checkstatus", lazy: true, bound: 1, ocspA: filterAnswers(redO, noCancel), crlA: redC, badURLs: true, badLast: true})
+	add(&c06Scenario{name: "one-cert-o1c0-bad-only-responder-CheckStatus", n: 2, o: []int{1}, c: []int{0}, entry: "checkstatus", lazy: true, bound: 1, ocspA: filterAnswers(redO, noCancel), crlA: redC, badURLs: true, badLast: true})
 	add(&c06Scenario{name: "one-cert-o2c0-bad-first-urls-CheckStatus", n: 2, o: []int{2}, c: []int{0}, entry: "checkstatus", lazy: true, bound: 1, ocspA: filterAnswers(redO, noCancel), crlA: redC, badURLs: true})
 	// cache faults with the real HTTPFetcher
 	for _, mode := range []string{"discard", "strict"} {
@@ -455,7 +471,7 @@ func (s *c06Scenario) body(c *mc.Ctx) {
 		}
 		allClean := usesCRL && s.c[i] > 0 && cleanDPs == s.c[i]
 		if s.badURLs && i == 0 && s.c[i] > 0 && !strings.HasPrefix(strings.ToLower(c06Bad(c06BadCRL, variant)), "http://") {
-			allClean = false // the first distribution point is not an http URL: it can never deliver
+			allClean = false // one distribution point (the first, or with badLast the last) is not an http URL: it can never deliver
 		}
 		state = append(state, fmt.Sprintf("c%d:names=%v goodOCSP=%v allClean=%v revoked=%v", i, names, goodOCSP, allClean, revEv))
 		c.Outcome("verdict:" + verdict.String())
